@@ -6,6 +6,7 @@
 import DDProofs.DumpProofs
 import DDProofs.Reach
 import DDProofs.ApplyProofs
+import DDProofs.PredNodesOrder
 open Std
 namespace DD
 
@@ -221,10 +222,6 @@ theorem lookup_append_single (cache : List (Nat × Int)) (k k' : Nat) (u : Int) 
 
 
 /-! ### the unique table has no entries other than those of the nodes -/
-
-/-- every entry `(level, low, high) ↦ u` of `_pred` is the triple of the stored node `u` -/
-def PredNodes (m : Mgr) : Prop :=
-  ∀ (k : List Int) (u : Nat), m.pred[k]? = some u → ∃ n, m.tbl.succ[u]? = some n ∧ n.key = k
 
 theorem PredNodes.congr {m m' : Mgr} (h : PredNodes m) (h1 : m'.pred = m.pred)
     (h2 : m'.tbl.succ = m.tbl.succ) : PredNodes m' := by
